@@ -1,13 +1,319 @@
-//! C13 — not implemented yet.
+//! C13 — `ConfigBuilder::build` / `build_lossy` on raw builder input, then `Logger::new` + `Log::log`
+//! on whatever configuration came back.
+//! case: rootLevel TAB appenders TAB rootRefs TAB loggers   (see lean/Driver/C13.lean)
+use crate::proto::*;
 use crate::rng::Rng;
+use log::{Level, LevelFilter, Log, Record};
+use log4rs::append::Append;
+use log4rs::config::runtime::{ConfigError, ConfigErrors};
+use log4rs::config::{Appender, Config, Logger, Root};
 
-pub fn gen(_rng: &mut Rng, _n: usize, _thorough: bool, _emit: &mut dyn FnMut(String)) {}
+/// the boxed `Append` object; `id` is the position at which it was handed to the builder
+#[derive(Debug)]
+struct Dummy(#[allow(dead_code)] usize);
 
-pub fn exec(_fields: &[&str]) -> String {
-    "unimplemented".to_owned()
+impl Append for Dummy {
+    fn append(&self, _: &Record) -> anyhow::Result<()> {
+        Ok(())
+    }
+    fn flush(&self) {}
 }
 
-/// child-process entry point (`verif-harness child c13 …`), for checks that need process-global state
+fn level_of(n: u64) -> Option<LevelFilter> {
+    Some(match n {
+        0 => LevelFilter::Off,
+        1 => LevelFilter::Error,
+        2 => LevelFilter::Warn,
+        3 => LevelFilter::Info,
+        4 => LevelFilter::Debug,
+        5 => LevelFilter::Trace,
+        _ => return None,
+    })
+}
+
+fn level_num(l: LevelFilter) -> u64 {
+    l as usize as u64
+}
+
+struct LoggerIn {
+    name: String,
+    level: LevelFilter,
+    additive: bool,
+    refs: Vec<String>,
+}
+
+struct Input {
+    root_level: LevelFilter,
+    appenders: Vec<String>,
+    root_refs: Vec<String>,
+    loggers: Vec<LoggerIn>,
+}
+
+fn dec_names(sep: char, s: &str) -> Option<Vec<String>> {
+    dec_list(sep, s).iter().map(|x| dec_str(x)).collect()
+}
+
+fn decode(fields: &[&str]) -> Option<Input> {
+    if fields.len() != 4 {
+        return None;
+    }
+    let root_level = level_of(fields[0].parse().ok()?)?;
+    let appenders = dec_names(',', fields[1])?;
+    let root_refs = dec_names(',', fields[2])?;
+    let mut loggers = vec![];
+    for l in dec_list(',', fields[3]) {
+        let p: Vec<&str> = l.split(';').collect();
+        if p.len() != 4 {
+            return None;
+        }
+        loggers.push(LoggerIn {
+            name: dec_str(p[0])?,
+            level: level_of(p[1].parse().ok()?)?,
+            additive: match p[2] {
+                "1" => true,
+                "0" => false,
+                _ => return None,
+            },
+            refs: dec_names('|', p[3])?,
+        });
+    }
+    Some(Input { root_level, appenders, root_refs, loggers })
+}
+
+fn builder_of(inp: &Input) -> (log4rs::config::runtime::ConfigBuilder, Root) {
+    let mut b = Config::builder();
+    for (i, a) in inp.appenders.iter().enumerate() {
+        b = b.appender(Appender::builder().build(a.clone(), Box::new(Dummy(i))));
+    }
+    for l in &inp.loggers {
+        b = b.logger(
+            Logger::builder()
+                .additive(l.additive)
+                .appenders(l.refs.iter().cloned())
+                .build(l.name.clone(), l.level),
+        );
+    }
+    let root = Root::builder().appenders(inp.root_refs.iter().cloned()).build(inp.root_level);
+    (b, root)
+}
+
+fn render_errs(e: &ConfigErrors) -> String {
+    let v: Vec<String> = e
+        .errors()
+        .iter()
+        .map(|e| match e {
+            ConfigError::DuplicateAppenderName(n) => format!("da:{}", enc_str(n)),
+            ConfigError::NonexistentAppender(n) => format!("ne:{}", enc_str(n)),
+            ConfigError::DuplicateLoggerName(n) => format!("dl:{}", enc_str(n)),
+            ConfigError::InvalidLoggerName(n) => format!("il:{}", enc_str(n)),
+            _ => "other:_".to_owned(),
+        })
+        .collect();
+    enc_list(",", &v)
+}
+
+fn dummy_id(a: &Appender) -> String {
+    // Debug of the boxed object is `Dummy(<id>)`
+    let d = format!("{:?}", a.appender());
+    d.trim_start_matches("Dummy(").trim_end_matches(')').to_owned()
+}
+
+fn render_cfg(c: &Config) -> String {
+    let apps: Vec<String> = c.appenders().iter().map(|a| format!("{}:{}", enc_str(a.name()), dummy_id(a))).collect();
+    let root_refs: Vec<String> = c.root().appenders().iter().map(|r| enc_str(r)).collect();
+    let logs: Vec<String> = c
+        .loggers()
+        .iter()
+        .map(|l| {
+            let refs: Vec<String> = l.appenders().iter().map(|r| enc_str(r)).collect();
+            format!(
+                "{};{};{};{}",
+                enc_str(l.name()),
+                level_num(l.level()),
+                enc_bool(l.additive()),
+                enc_list("|", &refs)
+            )
+        })
+        .collect();
+    format!(
+        "{}/{};{}/{}",
+        enc_list(",", &apps),
+        level_num(c.root().level()),
+        enc_list("|", &root_refs),
+        enc_list(",", &logs)
+    )
+}
+
+/// `Logger::new(config)` and one `Log::log` per configured logger name, per name with a child
+/// component appended, and for an unrelated target — nothing may panic.
+fn install_and_log(c: Config, targets: Vec<String>) -> &'static str {
+    let r = guarded(std::panic::AssertUnwindSafe(move || {
+        let logger = log4rs::Logger::new(c);
+        for t in &targets {
+            for lvl in [Level::Error, Level::Trace] {
+                logger.log(&Record::builder().level(lvl).target(t).args(format_args!("m")).build());
+            }
+        }
+        Log::flush(&logger);
+    }));
+    match r {
+        Ok(()) => "ok",
+        Err(_) => "PANIC",
+    }
+}
+
+fn targets_of(inp: &Input) -> Vec<String> {
+    let mut t = vec!["".to_owned(), "zz".to_owned()];
+    for l in &inp.loggers {
+        t.push(l.name.clone());
+        t.push(format!("{}::x", l.name));
+    }
+    t
+}
+
+pub fn exec(fields: &[&str]) -> String {
+    let inp = match decode(fields) {
+        Some(i) => i,
+        None => return "bad-case".to_owned(),
+    };
+    let r = guarded(std::panic::AssertUnwindSafe(|| {
+        let (b, root) = builder_of(&inp);
+        let (lossy, errors) = b.build_lossy(root);
+        let errors_s = render_errs(&errors);
+        let lossy_s = render_cfg(&lossy);
+        let install = install_and_log(lossy, targets_of(&inp));
+        let (b, root) = builder_of(&inp);
+        let (strict, serrors, scfg, sinstall) = match b.build(root) {
+            Ok(c) => {
+                let s = render_cfg(&c);
+                ("ok", "-".to_owned(), s, install_and_log(c, targets_of(&inp)))
+            }
+            Err(e) => ("err", render_errs(&e), "-".to_owned(), "-"),
+        };
+        format!(
+            "strict={} serrors={} errors={} lossy={} install={} strictcfg={} strictinstall={}",
+            strict, serrors, errors_s, lossy_s, install, scfg, sinstall
+        )
+    }));
+    match r {
+        Ok(s) => s,
+        Err(_) => "PANIC".to_owned(),
+    }
+}
+
+// ------------------------------------------------------------------------------------------------
+
+fn emit_case(
+    emit: &mut dyn FnMut(String),
+    root_level: u64,
+    apps: &[String],
+    root_refs: &[String],
+    loggers: &[(String, u64, bool, Vec<String>)],
+) {
+    let a: Vec<String> = apps.iter().map(|s| enc_str(s)).collect();
+    let r: Vec<String> = root_refs.iter().map(|s| enc_str(s)).collect();
+    let l: Vec<String> = loggers
+        .iter()
+        .map(|(n, lv, ad, refs)| {
+            let rs: Vec<String> = refs.iter().map(|s| enc_str(s)).collect();
+            format!("{};{};{};{}", enc_str(n), lv, enc_bool(*ad), enc_list("|", &rs))
+        })
+        .collect();
+    emit(format!("{}\t{}\t{}\t{}", root_level, enc_list(",", &a), enc_list(",", &r), enc_list(",", &l)));
+}
+
+const APP_POOL: &[&str] = &["a", "b", "c", "d", "", "a::b", "A"];
+const NAME_POOL: &[&str] = &[
+    "a", "b", "a::b", "a::b::c", "b::a", "::a", "a::", "a:b", "a:::b", "", ":", "::", "a::::b", "x::y", "::a::b", "é::ü",
+    "a b", "a::b:", ":a",
+];
+
+pub fn gen(rng: &mut Rng, n: usize, thorough: bool, emit: &mut dyn FnMut(String)) {
+    // exhaustive block: every logger name over {a,b,:} up to the length bound, alone in a builder
+    // with one declared appender that it references
+    let max_len = if thorough { 7 } else { 5 };
+    let alphabet = ['a', 'b', ':'];
+    let mut names: Vec<String> = vec![String::new()];
+    let mut layer: Vec<String> = vec![String::new()];
+    for _ in 0..max_len {
+        let mut next = vec![];
+        for s in &layer {
+            for c in alphabet {
+                let mut t = s.clone();
+                t.push(c);
+                next.push(t);
+            }
+        }
+        names.extend(next.iter().cloned());
+        layer = next;
+    }
+    for name in &names {
+        emit_case(emit, 3, &["a".to_owned()], &["a".to_owned()], &[(name.clone(), 4, true, vec!["a".to_owned()])]);
+    }
+    // every pair of names of length ≤ 2 as two loggers (duplicate × invalid interplay)
+    let short: Vec<&String> = names.iter().filter(|s| s.chars().count() <= 2).collect();
+    for x in &short {
+        for y in &short {
+            emit_case(
+                emit,
+                3,
+                &["a".to_owned()],
+                &[],
+                &[((*x).clone(), 4, true, vec!["q".to_owned()]), ((*y).clone(), 2, false, vec!["a".to_owned()])],
+            );
+        }
+    }
+    // random stream
+    for _ in 0..n {
+        let wide = rng.chance(1, 4);
+        let n_apps = rng.range(0, if wide { 8 } else { 4 });
+        let pool_n = rng.range(1, APP_POOL.len() as u64) as usize;
+        let pool = &APP_POOL[..pool_n];
+        let apps: Vec<String> = (0..n_apps).map(|_| rng.pick(pool).to_string()).collect();
+        let pick_ref = |rng: &mut Rng| -> String {
+            // declared names, names from the wider pool (possibly dangling), never-declared names
+            match rng.below(10) {
+                0..=5 if !apps.is_empty() => rng.pick(&apps).clone(),
+                6..=8 => rng.pick(APP_POOL).to_string(),
+                _ => rng.pick(&["zz", "a ", "missing"]).to_string(),
+            }
+        };
+        let n_root = rng.range(0, 4);
+        let root_refs: Vec<String> = (0..n_root).map(|_| pick_ref(rng)).collect();
+        let n_log = rng.range(0, if wide { 8 } else { 4 });
+        let valid_bias = rng.chance(1, 2);
+        let mut loggers: Vec<(String, u64, bool, Vec<String>)> = vec![];
+        for _ in 0..n_log {
+            let name = if !loggers.is_empty() && rng.chance(1, 4) {
+                rng.pick(&loggers).0.clone()
+            } else if valid_bias && rng.chance(3, 4) {
+                rng.pick(&NAME_POOL[..5]).to_string()
+            } else {
+                rng.pick(NAME_POOL).to_string()
+            };
+            let n_refs = rng.range(0, 3);
+            let refs: Vec<String> = (0..n_refs).map(|_| pick_ref(rng)).collect();
+            loggers.push((name, rng.range(0, 5), rng.chance(1, 2), refs));
+        }
+        // a fully well-formed variant now and then: unique names, only declared references
+        if rng.chance(1, 5) {
+            let mut seen = std::collections::BTreeSet::new();
+            let apps2: Vec<String> = apps.iter().filter(|a| seen.insert((*a).clone())).cloned().collect();
+            let mut seen_l = std::collections::BTreeSet::new();
+            let loggers2: Vec<(String, u64, bool, Vec<String>)> = loggers
+                .iter()
+                .filter(|l| NAME_POOL[..6].contains(&l.0.as_str()) && seen_l.insert(l.0.clone()))
+                .map(|l| (l.0.clone(), l.1, l.2, l.3.iter().filter(|r| apps2.contains(r)).cloned().collect()))
+                .collect();
+            let root2: Vec<String> = root_refs.iter().filter(|r| apps2.contains(r)).cloned().collect();
+            emit_case(emit, rng.range(0, 5), &apps2, &root2, &loggers2);
+        } else {
+            emit_case(emit, rng.range(0, 5), &apps, &root_refs, &loggers);
+        }
+    }
+}
+
+/// child-process entry point (unused by this property)
 pub fn child(_args: &[String]) -> i32 {
     2
 }
